@@ -113,7 +113,8 @@ func ruleTermsShapeOps(c *Ctx, prop string) {
 		"LogSoftmax": "LogSoftMax(P1[0],AXIS)",
 		"Expand":     "MultidirectionalBroadcast(P1[0],TARGET)",
 	}
-	scope := map[string][]string{"C08": {"Transpose", "Expand"}, "C16": {"Transpose", "Softmax", "LogSoftmax"}, "C09": {"Softmax", "LogSoftmax"}}
+	want["Concat"] = "CONCAT"
+	scope := map[string][]string{"C08": {"Transpose", "Expand", "Concat"}, "C16": {"Transpose", "Softmax", "LogSoftmax"}, "C09": {"Softmax", "LogSoftmax"}}
 	for _, name := range scope[prop] {
 		oi := c.opByName(name)
 		key := "R7:delegates:" + name
@@ -123,6 +124,15 @@ func ruleTermsShapeOps(c *Ctx, prop string) {
 		}
 		apply := oi.methods["Apply"]
 		got := c.successTerms(apply)
+		if name == "Concat" {
+			okC, why := c.concatDelegates(apply, got)
+			if okC {
+				c.discharge("R7", key, c.pos(apply.Pos()), "Concat returns tensor.Concat(normalised axis, inputs[0], inputs[1:]...), or its single input as it is")
+			} else {
+				c.undecided("R7", key, c.pos(apply.Pos()), "Concat no longer hands all its inputs, in order, to gorgonia's Concat ("+why+"): a concatenation done by hand is not followed by any rule; computed: "+strings.Join(got, " | "))
+			}
+			continue
+		}
 		ok := len(got) == 1
 		if ok {
 			g := got[0]
@@ -2009,4 +2019,77 @@ func (c *Ctx) failEdgeRetested(iff *ssa.If, failEdge bool, ev ssa.Value) bool {
 		return false
 	}
 	return false
+}
+
+// concatDelegates: every success return of Concat.Apply is the inputs list itself under len(inputs) == 1, or the
+// result of the one call tensor.Concat(axis, inputs[0], inputs[1:]...) with the axis derived from the attribute.
+func (c *Ctx) concatDelegates(apply *ssa.Function, terms []string) (bool, string) {
+	var call *ssa.Call
+	n := 0
+	for _, b := range apply.Blocks {
+		for _, in := range b.Instrs {
+			if cl, ok := in.(*ssa.Call); ok {
+				if sc := cl.Common().StaticCallee(); sc != nil && fnPkgPath(sc) == pkgTensor && sc.Name() == "Concat" && sc.Signature.Recv() == nil {
+					call = cl
+					n++
+				}
+			}
+		}
+	}
+	if n != 1 {
+		return false, fmt.Sprintf("%d calls of tensor.Concat in Apply", n)
+	}
+	args := call.Common().Args
+	if len(args) != 3 || !sameInputLoad(args[1], apply.Params[1], 0) {
+		return false, "the first tensor handed to tensor.Concat is not inputs[0]"
+	}
+	sl, ok := args[2].(*ssa.Slice)
+	if !ok || sl.X != ssa.Value(apply.Params[1]) || sl.High != nil || sl.Max != nil {
+		return false, "the remaining tensors are not inputs[1:]"
+	}
+	if lo, ok := constInt(sl.Low); !ok || lo != 1 {
+		return false, "the remaining tensors are not inputs[1:]"
+	}
+	if !strings.Contains(c.term(args[0], 0), ".axis") {
+		return false, "the axis handed to tensor.Concat does not derive from the axis attribute"
+	}
+	nCall := 0
+	for _, t := range terms {
+		switch {
+		case t == "P1":
+		case strings.HasPrefix(t, "Concat(") && strings.HasSuffix(t, ",P1[0])"):
+			nCall++
+		default:
+			return false, "a success return is neither the inputs themselves nor the result of tensor.Concat"
+		}
+	}
+	if nCall != 1 {
+		return false, "no success return hands out the result of tensor.Concat"
+	}
+	// the pass-through return only for a single input
+	for _, r := range returnsOf(apply) {
+		if len(r.Results) == 2 && r.Results[0] == ssa.Value(apply.Params[1]) {
+			guarded := false
+			for _, g := range guardsOf(r.Block()) {
+				for _, a := range atomsOf(g) {
+					if a.op != token.EQL {
+						continue
+					}
+					for _, pr := range [][2]ssa.Value{{a.x, a.y}, {a.y, a.x}} {
+						if k, ok := constInt(pr[1]); ok && k == 1 {
+							if bi, ok := pr[0].(*ssa.Call); ok {
+								if b, ok := bi.Common().Value.(*ssa.Builtin); ok && b.Name() == "len" && bi.Common().Args[0] == ssa.Value(apply.Params[1]) {
+									guarded = true
+								}
+							}
+						}
+					}
+				}
+			}
+			if !guarded {
+				return false, "the inputs are returned as they are on a path that is not guarded by len(inputs) == 1"
+			}
+		}
+	}
+	return true, ""
 }
